@@ -389,6 +389,23 @@ def gen_parafac2_linesearch_02_configs(tier, rng):
                    nn_modes=[0, 2], opts=dict(tol=1e-300, normalize=(k % 7 == 0), linesearch=True, n_iter_parafac=(5 if k % 9 == 0 else 1)))
 
 
+def gen_hals_lastfixed_configs(tier, rng):
+    """non_negative_parafac_hals from a user (weights, factors) with the LAST mode fixed (the weights are then pulled into the last updated mode by the
+    entry point itself, not by initialize_cp), weights far from 1, caps 0 / 1: at cap 0 the absorbed start is what is returned"""
+    for k in range(10 if tier == "quick" else 60):
+        order = rng.choice([2, 3, 3])
+        shape = tuple(rng.randint(2, 4) for _ in range(order))
+        rank = rng.choice([1, 2, 3])
+        klass = rng.choice(["signed", "nonneg", "sparse"])
+        X = gen_tensor(rng, shape, klass)
+        fs = [nn_matrix(rng, s_, rank) for s_ in shape]
+        w = np.array([rng.choice([3.0, 2.5, 0.5, 4.0, 1.0]) for _ in range(rank)])
+        fixed = [order - 1] + ([rng.randrange(order - 1)] if order == 3 and rng.random() < 0.3 else [])
+        yield dict(algo="nn_cp_hals", tensor=X, klass=klass + ":lastfixed", rank=rank, init={"weights": w, "factors": fs}, n=rng.choice([0, 0, 1]),
+                   rs=rng.randrange(10 ** 6), nn_modes=rng.choice(["all", "all", sorted(set(range(order)) - set(fixed))]),
+                   opts=dict(tol=0, normalize=rng.random() < 0.4, fixed_modes=sorted(fixed), sparsity=None, exact=False, cvg="abs_rec_error"))
+
+
 def quiet_run(cfg):
     with warnings.catch_warnings():
         warnings.simplefilter("ignore")
@@ -578,6 +595,8 @@ def run(chk):
         evaluate_cfg(chk, cfg, stats)
     for cfg in gen_parafac2_linesearch_02_configs(chk.tier, rng):
         evaluate_cfg(chk, cfg, stats)
+    for cfg in gen_hals_lastfixed_configs(chk.tier, rng):
+        evaluate_cfg(chk, cfg, stats)
     for cfg in gen_solver_cfgs(chk.tier, rng):
         evaluate_solver(chk, cfg, stats)
     stage("decomposition_runs")
@@ -647,6 +666,10 @@ def replay(payload):
         nn = inp["nn_modes"]
         ls = _BroThesisLineSearch(1.0, "truncated_svd", nn_modes=nn, acc_pow=inp["acc_pow"])
         last, cur = [arr(x) for x in inp["last"]], [arr(x) for x in inp["cur"]]
+        if inp.get("after_rejected_jump"):
+            it0 = inp["iteration"]
+            C.call_impl(lambda: ls.line_step(it0 - 2 if it0 > 6 else it0, [arr(x) for x in inp["slices"]], [f.copy() for f in last], np.ones(last[0].shape[1]),
+                                             [f.copy() for f in cur], [arr(x) for x in inp["projections"]], -np.inf), timeout=120)
         st, r = C.call_impl(lambda: ls.line_step(inp["iteration"], [arr(x) for x in inp["slices"]], last, np.ones(last[0].shape[1]), cur,
                                                  [arr(x) for x in inp["projections"]], np.inf), timeout=120)
         if st != "ok":
@@ -1216,6 +1239,10 @@ def corr_line(rng, tier, chk):
         ls = _BroThesisLineSearch(1.0, "truncated_svd", nn_modes=nn, acc_pow=acc)
         jump = it ** (1.0 / acc)
         projs = [np.linalg.qr(np.array([[rng.gauss(0, 1) for _ in range(R)] for _ in range(j)]))[0] for j in rows]
+        history = rng.random() < 0.4
+        if history:         # multi-step sequence: a jump rejected earlier on the same object (error -inf cannot be improved), then the jump under test
+            C.call_impl(lambda: ls.line_step(it - 2 if it > 6 else it, slices, [f.copy() for f in last], np.ones(R), [f.copy() for f in cur], projs, -np.inf), timeout=60)
+            jump = it ** (1.0 / ls.acc_pow)
         st, r = C.call_impl(lambda: ls.line_step(it, slices, [f.copy() for f in last], np.ones(R), [f.copy() for f in cur], projs, np.inf), timeout=60)
         if st != "ok" or r[0] is None or not finite_all(*r[0]) or not np.isfinite(r[2]):
             continue
@@ -1223,11 +1250,11 @@ def corr_line(rng, tier, chk):
         for m_ in decl:         # the line-search iterate itself (observation point of the clipping)
             if not (np.asarray(r[0][m_]) >= 0).all():
                 chk.finding("tensorly.decomposition._parafac2._BroThesisLineSearch.line_step",
-                            {"nn_modes": nn, "iteration": it, "acc_pow": acc, "last": last, "cur": cur, "slices": slices, "projections": projs},
+                            {"nn_modes": nn, "iteration": it, "acc_pow": acc, "last": last, "cur": cur, "slices": slices, "projections": projs, "after_rejected_jump": history},
                             f"accepted line-search iterate of declared mode {m_} has negative entries: {float(np.min(r[0][m_]))!r}",
                             "line_search_iterate_nonnegative", observed=list(r[0]))
         op = f"(OLine {C.nat_list(decl)} {C.q(jump)} {qmats_lit(last)} {qmats_lit(cur)})"
-        meta = {"corr": "_BroThesisLineSearch.line_step", "nn_modes": nn, "iteration": it, "acc_pow": acc, "last": last, "cur": cur}
+        meta = {"corr": "_BroThesisLineSearch.line_step", "nn_modes": nn, "iteration": it, "acc_pow": acc, "last": last, "cur": cur, "after_rejected_jump": history}
         out.append((op, Fraction(1, 10 ** 9), [], list(r[0]), meta))
     return out
 
@@ -1460,30 +1487,35 @@ def corr_parafac2_iter(rng, tier):
 
 # ============================================================================= round 5: corr:C10-static -- sign analysis of the regenerated bodies
 SIGN_TARGETS = [
-    # (file under tensorly/, function, sign assumptions on the parameters, `if` tests taken as true for the analysed configuration)
-    ("decomposition/_nn_cp.py", "non_negative_parafac", {"init": "SgNN"}, ()),
-    ("decomposition/_nn_cp.py", "non_negative_parafac_hals", {"init": "SgNN"}, ("mode in nn_modes",)),      # nn_modes='all': every updated mode is declared
-    ("decomposition/_tucker.py", "non_negative_tucker", {}, ()),
-    ("decomposition/_tucker.py", "non_negative_tucker_hals", {}, ()),
+    # (file under tensorly/, function, sign assumptions on the parameters, `if` tests taken as true / as false for the analysed configuration)
+    ("decomposition/_nn_cp.py", "non_negative_parafac", {"init": "SgNN"}, (), ()),
+    ("decomposition/_nn_cp.py", "non_negative_parafac_hals", {"init": "SgNN"}, ("mode in nn_modes",), ()),      # nn_modes='all': every updated mode is declared
+    ("decomposition/_tucker.py", "non_negative_tucker", {}, (), ()),
+    ("decomposition/_tucker.py", "non_negative_tucker_hals", {}, (), ()),
+    # the two solvers whose call contracts the bodies above use: warm start V >= 0, epsilon >= 0 / x >= 0, non_negative=True, epsilon >= 0
+    ("solvers/nnls.py", "hals_nnls", {"V": "SgNN", "epsilon": "SgNN"}, (), ("V is None",)),
+    ("solvers/nnls.py", "fista", {"x": "SgNN", "epsilon": "SgNN"}, ("non_negative",), ()),
 ]
 
 
 def corr_sign(chk):
-    """the bodies of the four non_negative_* entry points are re-translated from the CURRENT source (ast, harness/props/C10_sign.py) into programs of
+    """the bodies of the four non_negative_* entry points (and of hals_nnls / fista in the configuration the entry points call them) are re-translated from the CURRENT source (ast, harness/props/C10_sign.py) into programs of
     Model/NonnegSign.v; Coq evaluates the (proved sound) sign analysis on them: verdict 0 = the returned decomposition is entrywise >= 0 in every
     reachable state.  Fail closed: an untranslatable construct or a stale specialisation is a broken tie."""
     from harness.props import C10_sign as S
     out, info = [], {}
-    for rel, fname, signs, assume in SIGN_TARGETS:
+    for rel, fname, signs, assume, assume_f in SIGN_TARGETS:
         path = os.path.join(C.REPO, "tensorly", rel)
         try:
-            r = S.translate_function(open(path).read(), fname, signs, assume)
+            with warnings.catch_warnings():
+                warnings.simplefilter("ignore")
+                r = S.translate_function(open(path).read(), fname, signs, assume, assume_f)
         except (S.Untranslatable, SyntaxError, OSError) as e:
             chk.broken.append({"what": f"corr:C10-static: {fname} ({rel}) cannot be translated into the sign-analysis language (broken tie)", "detail": str(e)[:300]})
             continue
         info[fname] = {k: r[k] for k in ("n_stmts", "n_vars", "n_returns", "unknown_calls")}
         op = f"(OSign {r['prog']} {r['a0']} {r['ret']})"
-        out.append((op, Fraction(0), [0.0], [], {"corr": f"corr:C10-static {fname}", "file": rel, "function": fname, "assumed_true": list(assume),
+        out.append((op, Fraction(0), [0.0], [], {"corr": f"corr:C10-static {fname}", "file": rel, "function": fname, "assumed_true": list(assume), "assumed_false": list(assume_f),
                                                  "parameter_signs": signs, "statements": r["n_stmts"], "variables": r["n_vars"]}))
     chk.cov["static_sign_analysis"] = info
     return out
